@@ -9,6 +9,7 @@
   What the chain and the criteria themselves mean is `Props/C06.lean`.
 -/
 import Alpaqa.Proofs.ZerofprInv
+import Alpaqa.Proofs.ZerofprExample
 
 namespace Alpaqa.Props.C06_Zerofpr
 open Alpaqa Alpaqa.Zerofpr Alpaqa.Gen
@@ -188,6 +189,16 @@ local instance : RealLike Rat := ⟨id, fun _ => false, fun _ => true⟩
 example : statusChain (1 : Rat) 10 5 10 2 0 false false = SolverStatus.MaxIter := by decide +kernel
 example : statusChain (1 : Rat) 10 5 3 0 0 false true = SolverStatus.Converged := by decide +kernel
 example : statusChain (1 : Rat) 10 5 3 2 0 false true = SolverStatus.Interrupted := by decide +kernel
+
+open Alpaqa.Zerofpr.Example in
+/-- the concrete solve of `Proofs/ZerofprExample.lean`: three iterations, `MaxIter`, and the
+    reported ε is `‖p‖∞/γ` of the final iterate (`p = 1/32 − 1/16`, `γ = 1/2`). -/
+example : (exRun (fun _ => false)).fuelOut = false ∧
+    (exRun (fun _ => false)).stats.iterations = 3 ∧ exPr.maxIter = 3 ∧
+    (exRun (fun _ => false)).stats.status = SolverStatus.MaxIter ∧
+    (exRun (fun _ => false)).stats.eps = 1/16 ∧
+    (exRun (fun _ => false)).callbacks.length = 4 := by
+  decide +kernel
 end examples
 
 end Alpaqa.Props.C06_Zerofpr
